@@ -97,7 +97,11 @@ def run(ctx):
             for case in tlc.read_cases(path):
                 k += 1
                 ctx.evaluations += 1
-                reqs, status, fin = call(ctx, d, case['prior'], case['script'], case['md5s'])
+                reqs = None
+                with ctx.guard('replay', case):
+                    reqs, status, fin = call(ctx, d, case['prior'], case['script'], case['md5s'])
+                if ctx.abort:
+                    return
                 ctx.traces += 1
                 if 'data' in case['reqs']:
                     ctx.nontrivial += 1
@@ -124,7 +128,10 @@ def run(ctx):
             else:
                 md5s = [['correct', 'wrong', 'missing'][int(x)] for x in rng.randint(0, 3, size=3)]
             prior = ['absent', 'valid', 'corrupt'][int(rng.randint(0, 3))]
-            reqs, status, fin = call(ctx, d, prior, script, md5s)
+            with ctx.guard('trace', dict(prior=prior, script=script, md5s=md5s)):
+                reqs, status, fin = call(ctx, d, prior, script, md5s)
+            if ctx.abort:
+                return
             recs.append(dict(id=rid, prior=prior, script=script, md5s=md5s, reqs=reqs,
                              status=status, file=fin))
     for rid, clause in ctx.validate('Trace_Download', 'Trace_Download.cfg', recs):
